@@ -11,6 +11,7 @@
 
 mod exec;
 mod gen;
+mod handles;
 mod modes;
 mod query;
 mod rng;
@@ -34,6 +35,7 @@ fn main() {
     "explore" => modes::explore(&rest),
     "sweep" => modes::sweep(&rest),
     "hashorder" => modes::hashorder(&rest),
+    "hotkey" => modes::hotkey(&rest),
     "replay" => modes::replay(&rest),
     "single" => modes::single(&rest),
     "kinds" => {
